@@ -76,9 +76,11 @@ def expr_family(rng, t):
     return fam
 
 
-def point_family(rng):
+def point_family(rng, big=True):
     names = rng.sample(["x", "y", "z", "w", "self", "x1"], rng.randint(0, 4))
-    base = {n: rng.choice([1, 2.0, -0.5, 0, 3, 1.5, 2 ** 53, 2 ** 53 + 1, 9007199254740992.0, 10 ** 17 + 3]) for n in names}
+    # coordinates beyond 2**53 only where the points are compared, never where the library evaluates at them (int ** huge int does not return)
+    vals = [1, 2.0, -0.5, 0, 3, 1.5] + ([2 ** 53, 2 ** 53 + 1, 9007199254740992.0, 10 ** 17 + 3] if big else [])
+    base = {n: rng.choice(vals) for n in names}
     fam = [("base", dict(base)), ("rebuild", dict(base))]
     items = list(base.items())
     for i in range(3):
@@ -219,7 +221,7 @@ def check_case(ctx, case):
             ctx.sample({"family": [(lab, S.show_point(d)) for lab, d in fam[:8]]})
     else:
         fam = expr_family(rng, t)[:8]
-        pts = point_family(rng)[:5]
+        pts = point_family(rng, big=False)[:5]
         objs = []
         for lab, sp in fam:
             names = sorted(S.variables(sp))
